@@ -181,6 +181,43 @@ ports = [n.orelse.value for n in ast.walk(cn) if isinstance(n, ast.IfExp) and is
 default_port = one(ports, "HSFZTransport.connect: default port")
 
 
+# every asyncio.Queue constructed in hsfz.py with its capacity (0 = unbounded): the reader task's `await put()` never
+# suspends and the `put_nowait` re-queue of skipped frames never raises only as long as it is unbounded
+def queue_capacity(call, cls):
+    args = list(call.args) + [k.value for k in call.keywords if k.arg == "maxsize"]
+    if not args:
+        return 0
+    a = args[0]
+    if isinstance(a, ast.Constant) and isinstance(a.value, int):
+        return max(0, a.value)
+    name, holder = None, None
+    if isinstance(a, ast.Attribute) and isinstance(a.value, ast.Name) and a.value.id in ("self", "cls", cls.name):
+        name, holder = a.attr, getattr(hsfz, cls.name, None)
+    elif isinstance(a, ast.Name):
+        name, holder = a.id, hsfz
+    if name is not None:
+        v = getattr(holder, name, None)
+        if isinstance(v, int) and not isinstance(v, bool):
+            return max(0, v)
+    die(f"asyncio.Queue({ast.unparse(a)}) in {cls.name}: a capacity the translator cannot evaluate")
+
+
+queues = []
+for cls in [n for n in tree.body if isinstance(n, ast.ClassDef)]:
+    for n in ast.walk(cls):
+        tgt, qv = None, None
+        if isinstance(n, ast.Assign) and len(n.targets) == 1:
+            tgt, qv = n.targets[0], n.value
+        elif isinstance(n, ast.AnnAssign) and n.value is not None:
+            tgt, qv = n.target, n.value
+        if qv is not None and isinstance(qv, ast.Call) and ast.unparse(qv.func) in ("asyncio.Queue", "Queue"):
+            queues.append((n.lineno, f"{cls.name}.{ast.unparse(tgt)}", queue_capacity(qv, cls)))
+n_calls = sum(1 for n in ast.walk(tree) if isinstance(n, ast.Call) and ast.unparse(n.func) in ("asyncio.Queue", "Queue"))
+if not queues or n_calls != len(queues):
+    die(f"asyncio.Queue(...) constructions in hsfz.py: {n_calls} calls, {len(queues)} understood")
+queue_caps = "[" + ", ".join(f"({lean_str(t)}, {c})" for _, t, c in sorted(queues)) + "]"
+
+
 def pairs(xs):
     return "[" + ", ".join(f"({lean_str(a)}, {b})" for a, b in xs) + "]"
 
@@ -228,6 +265,9 @@ def workerArms : List (Int × String) := [{", ".join(f"({v}, {lean_str(k)})" for
 def defaultAckTimeoutMs : Nat := {ack_default}
 def ackTimeoutDivisor : Nat := {ack_div}
 def defaultPort : Nat := {default_port}
+
+/-- every `asyncio.Queue` constructed in hsfz.py with its capacity (0 = unbounded), in source order -/
+def queueCaps : List (String × Nat) := {queue_caps}
 
 end Gallia.Gen.C07Hsfz
 """
